@@ -21,6 +21,7 @@ from harness.core import gq, gbool, gstr, glist, gnat
 from harness.props import alloc_common as ac
 from harness.props import c01, c06, c07, c15
 from harness.props import c20_related as rel
+from harness.props import c20_worker as c20w
 from harness.props import netlist_common as nc
 
 HEADER = """From Coq Require Import ZArith List Bool String.
@@ -44,7 +45,10 @@ ASSUMPTIONS = [
     "1e-12) and 16 roundings (the square root, checked by squaring)",
     "the model of Netlist._create_rectangles mirrors fixes/C20-infinite-epsilon.diff (a netlist without any "
     "dimension leaves the tolerances undefined instead of installing an infinite one)",
-    "the legaliser, Strop and default-argument probes are compared by digest only (their models have no state)",
+    "the legaliser probes are compared by digest only (the model's builder is a Section variable); Strop and "
+    "default-argument probes are compared with the model evaluated from the import-time default objects",
+    "related histories: an operation whose candidate tolerance the harness does not predict (documents with "
+    "region-wise areas, YAML texts) is placed after a first writer whose candidate is predicted",
     "BDD node ids are renamed by the structure of the node (variable, canonical names of the children)",
 ]
 
@@ -272,6 +276,8 @@ def gen_die(rng, P, variant="robust", decimal=False):
     doc = {k: ([[pv(x) for x in r] for r in v] if (k == "regions" and nested) else
                ([pv(x) for x in v] if k == "regions" else pv(v))) for k, v in tree.items()}
     op = {"k": "die", "doc": doc, "netlist": None}
+    if rng.random() < 0.25:
+        op["refine"] = [rng.choice([1.5, 2.0, 3.0]), rng.choice([1, 4, 9, 16])]      # split_refinable_regions
     cand = []
     ds = [W, H] + [b[2] for b in boxes] + [b[3] for b in boxes]
     if fixed:
@@ -620,6 +626,11 @@ REL_KINDS = ["die-grid", "die", "alloc", "stog", "netlist", "sat", "die-grid", "
              "netlist", "stog", "sat", "die-grid", "defaults", "die", "netlist-simple"]
 
 
+# near-duplicates of a die are probed only while the grid of cut coordinates stays small: the cost of evaluating the
+# die model in Coq grows steeply with the number of cells, and every near-duplicate of a large die is large
+MAX_REL_CELLS = 20
+
+
 def installs(h):
     """an operation whose candidate tolerance is known and defined: it installs the tolerances when none are"""
     return (not h.get("needs_installer")) and any(c[1] is not None for c in (h.get("cand") or []))
@@ -671,6 +682,10 @@ def gen_related_group(rng, kind):
     else:
         pk = {"netlist-simple": "netlist"}.get(kind, kind)
         p, base = gen_probe(rng, kind=pk)
+        for _ in range(20):
+            if pk != "die" or rel.die_cells(p) <= MAX_REL_CELLS:
+                break
+            p, base = gen_probe(rng, kind=pk)          # a die whose model evaluates quickly (see MAX_REL_CELLS)
         if kind == "netlist-simple":
             base = pow2(rng.choice([-6, -3, 0, 0, 2, 5]))
             p = gen_netlist_hist(rng, base)
@@ -679,9 +694,11 @@ def gen_related_group(rng, kind):
         fam = [strip(m) for m in rel.relatives(rng, lead)]
         selfs = [m for m in fam if m["note"] == "rel:self"]
         others = [m for m in fam if m["note"] != "rel:self"]
-        chosen = rng.sample(others, min(len(others), rng.randrange(3, 10)))
+        # every near-duplicate, or a handful of them
+        chosen = list(others) if rng.random() < 0.5 else rng.sample(others, min(len(others), rng.randrange(3, 10)))
         chosen += [copy_of(selfs[0]) for _ in range(rng.choice([0, 1, 1, 2, 3]))] if selfs else []
-        probes = [lead] + rng.sample(others, min(len(others), 2))
+        cheap = [m for m in others if m["kind"] != "die" or rel.die_cells(m) <= MAX_REL_CELLS]
+        probes = [lead] + rng.sample(cheap, min(len(cheap), 2))
     rng.shuffle(chosen)
     for _ in range(rng.choice([0, 0, 1, 2, 3])):
         h = gen_history_op(rng, lead, base)
@@ -921,6 +938,67 @@ def sat_check(case, raw):
     return c07.to_coq({"posts": posts}, obs)
 
 
+def gtree_expr(terms, const):
+    """tools.rect.pseudobool expression built as the worker's build_expr does"""
+    t = "TZero"
+    for v, sgn, c in terms:
+        t = f"(TAddTerm {t} {gstr(c20w.PRE + v)} {gbool(sgn)} ({int(c)})%Z)"
+    if const != 0:
+        t = f"(TAddInt {t} ({int(const)})%Z)"
+    return t
+
+
+DOP = {">=": "GE", "<=": "LE", ">": "GT", "<": "LT", "=": "EQ", "==": "EQ2"}
+
+
+def defaults_check(op, o):
+    """the model's steps from the import-time default objects against the observed ones"""
+    if not isinstance(o, dict) or "steps" not in o:
+        return "false"
+    steps = []
+    for st in op["steps"]:
+        k = st[0]
+        if k == "ineq0":
+            steps.append("DIneq None None GE")
+        elif k == "ineq_l":
+            steps.append(f"DIneq (Some {gtree_expr(st[1], st[2])}) None GE")
+        elif k == "ineq_r":
+            steps.append(f"DIneq None (Some {gtree_expr(st[1], st[2])}) GE")
+        elif k == "ineq_op":
+            steps.append(f"DIneq None None {DOP[st[1]]}")
+        elif k == "expr0":
+            steps.append("DExpr")
+        else:
+            steps.append("DUse")
+    outs = []
+    for x in o["steps"]:
+        if isinstance(x, dict):
+            return "false"                       # a step raised: the model never does
+        if x[0] == "ineq":
+            if x[2] != 0 or x[5] is not None:
+                return "false"                   # lhs.c is reset to 0, clause starts as None
+            ts = glist([f"(mkT {gstr(t[1])} {gbool(t[2])} ({int(t[3])})%Z)" for t in x[1]])
+            outs.append(f"DOIneq (mkI {ts} ({int(x[3])})%Z {DOP[x[4]]})")
+        else:
+            ts = glist([f"(mkT {gstr(t[1])} {gbool(t[2])} ({int(t[3])})%Z)" for t in x[2]])
+            outs.append(f"DOExpr (mkE ({int(x[1])})%Z {ts})")
+    return f"defaults_ck {glist(steps)} {glist(outs)}"
+
+
+def strop_check(op, o):
+    rows = glist([gstr(r) for r in op["matrix"].split()])
+
+    def gsizes(v):
+        return "None" if v is None else f"(Some {glist([gq(F(x)) for x in v])})"
+    head = f"strop_ck {rows} {gsizes(op.get('height'))} {gsizes(op.get('width'))}"
+    if not isinstance(o, dict) or "instances" not in o:
+        return f"{head} None" if isinstance(o, dict) and o.get("raised") == "AssertionError" else "false"
+    inst = sorted(o["instances"], key=lambda rs: rs[0] if rs else [])
+    e = glist([glist([f"({a}, {b}, {c}, {d})%nat" for a, b, c, d in rs]) for rs in inst])
+    return (f"{head} (Some ({e}, {gbool(o['is'])}, {glist([gq(F(x)) for x in o['height']])}, "
+            f"{glist([gq(F(x)) for x in o['width']])}))")
+
+
 def to_coq(case, obs):
     parts = []
     p = case["probe"]
@@ -957,13 +1035,19 @@ def to_coq(case, obs):
             d, deps, tin = gdie(case)
             arg = f"{deps} {tin} {d}"
             nm = "die"
-        parts.append(f"Bool.eqb ({nm}_same {two} {arg}) {gbool(same)}")
-        parts.append(f"implb ({nm}_robust {band} {arg}) ({nm}_same {two} {arg})")
+        # (the model under the two tolerances is evaluated once)
+        parts.append(f"let s := {nm}_same {two} {arg} in Bool.eqb s {gbool(same)} && "
+                     f"implb ({nm}_robust {band} {arg}) s")
         parts.append(f"in_band {band} {gq(e1[0])} {gq(e1[1])} && in_band {band} {gq(e2[0])} {gq(e2[1])}")
     # 3. the SAT layer from the store the history left behind
     if p["kind"] == "sat":
         parts.append(sat_check(case, obs.get("raw_after")))
         parts.append(sat_check(case, obs.get("raw_alone")))
+    # 4. objects built from default arguments / Strop: the model from the import-time default objects
+    if p["kind"] in ("defaults", "strop"):
+        chk = defaults_check if p["kind"] == "defaults" else strop_check
+        for side in ("alone", "after"):
+            parts.append(chk(p["op"], unwj(obs[side]["obs"])))
     return " && ".join(f"({x})" for x in parts) if parts else "true"
 
 
@@ -1022,13 +1106,24 @@ def failure_key(case, why):
 # --------------------------------------------------------------------------
 # shrinking: shorten the history
 # --------------------------------------------------------------------------
+SHRINK_T = [0.0, 0]
+
+
 def shrink(case):
     h = case["history"]
     if len(h) > 1:
         cands = [h[:len(h) // 2], h[len(h) // 2:]] + [h[:i] + h[i + 1:] for i in range(len(h))]
-        for c in cands:
-            if installer_rule_ok(c):         # the tolerance trace of the shortened history must stay predicted
-                yield dict(case, history=c)
+        # the tolerance trace of the shortened history must stay predicted
+        cands = [dict(case, history=c) for c in cands if installer_rule_ok(c)]
+        # all candidates of a round are executed in one batch of workers (run_impl then finds them in the cache)
+        todo = [c for c in cands if case_key(c) not in _CACHE]
+        if todo:
+            import time
+            t0 = time.time()
+            _CACHE.update(run_batch(todo, par=10))
+            SHRINK_T[0] += time.time() - t0
+            SHRINK_T[1] += 1
+        yield from cands
 
 
 def nontrivial(case):
@@ -1068,10 +1163,20 @@ def fresh_crosscheck(ctx, out, cases, n):
                                       "why": "forked and fresh-interpreter executions give different digests",
                                       "fresh": [a, b], "forked": [obs["alone"]["digest"], obs["after"]["digest"]]})
     out.extra["fresh_interpreter_crosscheck"] = {"cases": len(sample), "mismatches": bad}
+    _t("fresh cross-check")
+
+
+def _t(label, t0=[None]):
+    import time
+    now = time.time()
+    if os.environ.get("C20_TIMING") and t0[0] is not None:
+        sys.stderr.write(f"[c20 timing] {label}: {now - t0[0]:.1f}s\n")
+    t0[0] = now
 
 
 def run(ctx, out, replay=None):
     quick = ctx.quick()
+    _t("start")
     ngroups = 45 if quick else 800
     nrelated = 36 if quick else 700
     out.rule = ("(history, probe) pairs: probe = netlist load + verdict / orthogon recognition of a hard module / die "
@@ -1094,7 +1199,9 @@ def run(ctx, out, replay=None):
         cases += g
     # JSON round trip so that replayed and generated cases have the same representation
     cases = [fr.unjson(json.loads(json.dumps(fr.tojson(c)))) for c in cases]
+    _t("generation")
     _CACHE.update(run_batch(cases, par=10))
+    _t("workers")
     stats = {"pairs": len(cases), "digests_differ": 0, "explained_by_first_writer": 0, "histories_installing_eps": 0,
              "probe_eps_differs": 0, "corpus": ncorpus}
     for c in cases:
@@ -1110,11 +1217,14 @@ def run(ctx, out, replay=None):
         if o.get("eps_hist") and o.get("eps_own") and o["eps_hist"] != o["eps_own"]:
             stats["probe_eps_differs"] += 1
     fr.run_cases(ctx, out, cases, run_impl, to_coq, oracle, failure_key, HEADER, dist_key=dist_key,
-                 nontrivial=nontrivial, shard=60, shrink=shrink)
+                 nontrivial=nontrivial, shard=24 if quick else 60, shrink=shrink)
+    _t(f"run_cases (shrinking {SHRINK_T[0]:.1f}s in {SHRINK_T[1]} batches + model evaluation)")
     # how many exact probes the model calls robust
     rob = [(c, robust_expr(c)) for c in cases]
     rob = [(c, e) for c, e in rob if e is not None and "crash" not in _CACHE.get(case_key(c), {})]
-    vals = core.coq_eval_bools(ctx, HEADER, [e for _, e in rob], shard=80, tag="robust")
+    if quick:
+        rob = rob[:48]          # a sample: the implication robust -> same is part of every case's model check anyway
+    vals = core.coq_eval_bools(ctx, HEADER, [e for _, e in rob], shard=12 if quick else 80, tag="robust")
     nrob = sum(1 for v in vals if v is True)
     stats["exact_probes"] = len(rob)
     stats["exact_probes_robust"] = nrob
@@ -1125,5 +1235,6 @@ def run(ctx, out, replay=None):
         1 for (c, _), v in zip(rob, vals)
         if v is False and _CACHE[case_key(c)]["alone"]["digest"] != _CACHE[case_key(c)]["after"]["digest"])
     out.extra["c20_stats"] = stats
+    _t("robust count")
     fresh_crosscheck(ctx, out, [c for c in cases if "crash" not in _CACHE.get(case_key(c), {})][ncorpus:],
                      6 if quick else 40)
